@@ -1085,6 +1085,37 @@ for _g in E3_LOOP:
 for _g in E3_POOL:
     add("e3_" + _g, _mk_pool, E3[_g], 60, 150, sel_only=True)
 
+# ---- the shared corpus (members built from the standard tags only): str() parses, is a fixed point, renders the same ----
+from harness import corpus as _corpus  # noqa: E402
+
+_CENV = _corpus.make_env(Env)
+
+
+def _corpus_skip(w2, w1, leaf):
+    src = _corpus.source(w2, w1, leaf)
+    return "{% with" in src or "{% macro" in src or "{% translate" in src   # extra tags: outside the quantifier
+
+
+def _corpus_check(w2, w1, leaf, d):
+    t = _corpus.template(_CENV, w2, w1, leaf)
+    if t is None:
+        return None
+    s = str(t)
+    try:
+        t2 = _CENV.from_string(s)
+    except Exception as e:
+        return {"str": s, "reparse": type(e).__name__}
+    if str(t2) != s:
+        return {"str": s, "str_of_reparsed": str(t2)}
+    a = _corpus.outcome(lambda: t.render(**_corpus.data(d)))
+    b = _corpus.outcome(lambda: t2.render(**_corpus.data(d)))
+    return None if a == b else {"str": s, "render_original": a, "render_reparsed": b}
+
+
+c04_corpus, _det = _corpus.mk_condition("c04_corpus", _corpus_check, _corpus_skip)
+DETAIL["c04_corpus"] = _det
+CONDITIONS.append({"fn": "c04_corpus", "quick": 90, "thorough": 200, "sel_only": True, "bounds": _corpus.BOUNDS + ", members with extra tags skipped"})
+
 ASSUMPTIONS = [
     "template sources are concrete members of generated / listed families (harness/c04.py); parse, str and re-parse run once per member on the real code, "
     "rendering of the original and of the re-parsed template runs with symbolic data",
